@@ -351,4 +351,6 @@ def _r22(F):
 
 
 _r22.__name__ = "r22"
-RULES = [_r22, r22h, r23, r24]
+from . import c11 as _c11
+
+RULES = [_r22, r22h, r23, r24, _c11.r72]
